@@ -1,12 +1,12 @@
 // C09 — a discretised distribution is always a valid partition of its continuous parent
 // VF-VARIANT: san
 // VF-RULE: E2 (spaces disc:<family>): every combination of class count x discretisation scheme x median flag x restriction x parameter point of a fixed lattice; one case = construct, setMedian, restrictToConstraint, then every clause of the statement is judged on the resulting state (class count, p>=0, sum, strictly increasing values inside their own class, ordered bounds inside the reported domain, class mass = parent's own cumulative mass over the class relative to the mass of the reported domain, equal masses, mean of mean-valued classes, value look-up at every bound / class value / midpoint, the four cumulative queries, copy/assign independence). Spaces parent:<family>: the parent's pProb/qProb/Expectation on a 128+129-point grid of every reported domain (monotone, inverse, integrated derivative relation). Spaces compound:*: constant / simple / invariant-mixed / mixture over their own lattices, judged on normalisation and class count only. E1 (hist:*): breadth-first closure of the state graph of ONE live object under setParameterValue / setParametersValues / matchParametersValues / setNumberOfCategories / setMedian / restrictToConstraint (four nested and overlapping sub-intervals) / replace-by-copy / replace-by-assigned, with the same audit in every state and two query operations (look-up audit, copy-independence audit). A case is non-trivial when it has >= 2 classes over a domain of positive mass (E2) or the transition changed the canonical state (E1).
-// VF-BOUND: class counts {1,2,3,4,5,8,16,32}; schemes {equal-probability, equal-interval, equal-probability-when-possible}; shapes/rates/scales in {0.1,0.5,1,3,10,100} (thorough: {0.1,0.2,0.5,1,2,3,5,10,30,100}); locations (gaussian mean, gamma offset) in {0,0.5,3,100,-1} / {0,0.5,3,-1}; six restrictions per parameter point defined from the closed-form mean and standard deviation; E1: 2-4 values per parameter, class counts {1,2,3,5} (thorough {1,2,3,4,5,8,16,32}), four restriction intervals, closure of the state graph (histories of any length over that alphabet) per family and scheme
+// VF-BOUND: class counts {1,2,3,4,5,8,16,32}; schemes {equal-probability, equal-interval, equal-probability-when-possible}; shapes/rates/scales in {0.1,0.5,1,3,10,100} (thorough: {0.1,0.2,0.5,1,2,3,5,10,30,100}); locations (gaussian mean, gamma offset) in {0,0.5,3,100,-1} / {0,0.5,3,-1}; six restrictions per parameter point defined from the closed-form mean and standard deviation; E1: 2-3 values per parameter, class counts {1,2,4} (thorough {1,2,3,4,5,8,16,32}), four restriction intervals, closure of the state graph (histories of any length over that alphabet) per family and scheme
 // VF-LEVEL: bounded-exhaustive execution of the real classes on the stated lattices and closed state graphs; the class masses and means are judged against the object's own parent functions (as the statement says), the parent functions against each other on a grid; nothing is known about parameter values, intervals or class counts outside the lattices
 // VF-ASSUME: the parent's cumulative function is accurate to 4e-8 absolute and cumulative/quantile are inverse to 1e-5 in probability units on the lattice (the series in incompleteGamma is truncated at 1e-8; property C08 judges these functions against an external reference);; a class value may leave its class interval by (k+1) times the value resolution the object itself declares (precision(), 1e-12 or 1e-20), which is how far the library's boundary adjustment and duplicate separation move it;; the domain is taken as the object reports it (no history-independence of the domain is demanded);; the scheme of the families whose constructor does not expose it is set by a trivial client subclass that assigns the protected member and calls discretize()
 // VF-TECHNIQUE: exhaustive lattice enumeration and state-graph closure with a clause-by-clause oracle built on the parent functions
-// VF-BUDGET_QUICK: 240
-// VF-BUDGET_THOROUGH: 1700
+// VF-BUDGET_QUICK: 900
+// VF-BUDGET_THOROUGH: 7200
 #include "C09_model.hpp"
 using namespace bpp;
 using namespace c09;
@@ -61,8 +61,9 @@ static void discSpace(vf::Runner& R, Fam f, bool th) {
       double lo = std::max(iv.lo, d->getLowerBound()), hi = std::min(iv.hi, d->getUpperBound());
       if (!(lo < hi)) { c.tag("restriction-outside-domain(skipped)"); return; }
       IntervalConstraint ic = ivc(iv);
+      // a call that raises is not an accepted restriction, but the object stays in the client's hands: its state is audited all the same
       try { d->restrictToConstraint(ic); }
-      catch (Exception& e) { c.tag("restriction-rejected"); if (idx % 7 == 0) c.sample(ctx + " rejected: " + e.what()); return; }
+      catch (Exception& e) { c.tag("restriction-raised(state audited all the same)"); ctx += " [raised " + std::string(e.what()).substr(0, 60) + "]"; }
     }
     AuditOpt o{k, med, scheme, f};
     c.site("audit");
@@ -76,7 +77,7 @@ static void discSpace(vf::Runner& R, Fam f, bool th) {
     if (k >= 2 && M > 0) c.nontrivial();
     c.tag(std::string("scheme=") + schemeName(scheme) + (med ? ",median" : ",mean") + (iv.any ? ",restricted" : ""));
     if (idx % 4099 == 11) c.sample(ctx + " -> " + snapStr(snap(*d)));
-  }, 0.3, 4);
+  }, 0.2, 4);
 }
 
 // E2: parent functions on every reported domain of the lattice
@@ -95,7 +96,7 @@ static void parentSpace(vf::Runner& R, Fam f, bool th) {
       double lo = std::max(iv.lo, d->getLowerBound()), hi = std::min(iv.hi, d->getUpperBound());
       if (!(lo < hi)) { c.tag("restriction-outside-domain(skipped)"); return; }
       IntervalConstraint ic = ivc(iv);
-      try { d->restrictToConstraint(ic); } catch (Exception&) { c.tag("restriction-rejected"); return; }
+      try { d->restrictToConstraint(ic); } catch (Exception&) { c.tag("restriction-raised(state audited all the same)"); }
     }
     c.site("parent-functions");
     auditParent(*d, f, c, ctx + " reported domain [" + num(d->getLowerBound()) + "," + num(d->getUpperBound()) + "]");
@@ -187,18 +188,18 @@ static void compoundSpaces(vf::Runner& R, bool th) {
   }
   // invariant-mixed and mixtures: kind x k x median x weight x shapes x follow-up
   {
-    std::vector<double> S = th ? std::vector<double>{0.1, 0.5, 1, 3, 10, 100} : std::vector<double>{0.5, 1, 3};
-    std::vector<double> W = {0.5, 0.1, 0.9, 0, 1};
+    std::vector<double> S = th ? std::vector<double>{0.1, 0.5, 1, 3, 10, 100} : std::vector<double>{0.5, 3};
+    std::vector<double> W = {0.5, 0.1, 0, 1};
     int nS = (int)S.size(), nW = (int)W.size();
-    R.space(std::string("compound:nested:kind5:K8:M2:W5:S") + str(nS) + "x" + str(nS) + ":F4", (uint64_t)5 * 8 * 2 * nW * nS * nS * 4, [=](uint64_t idx, vf::Case& c) {
+    R.space(std::string("compound:nested:kind5:K8:M2:W4:S") + str(nS) + "x" + str(nS) + ":F4", (uint64_t)5 * 8 * 2 * nW * nS * nS * 4, [=](uint64_t idx, vf::Case& c) {
       std::vector<int> dg = vf::digits(idx, {nS, nS, nW, 4, 2, 5, 8});
       double a = S[dg[0]], b = S[dg[1]], w = W[dg[2]]; int fu = dg[3]; bool med = dg[4]; int kind = C_INV_GAMMA + dg[5]; size_t k = KS[dg[6]];
       if ((kind == C_INV_SIMPLE) && (dg[0] || dg[1] || dg[6])) { c.tag("redundant(skipped)"); return; }
       std::string ctx = std::string(CKNAME[kind]) + " k=" + str(k) + " shapes=" + num(a) + "," + num(b) + " weight=" + num(w) + " median=" + str((int)med);
       c.site("compound-ctor");
       std::unique_ptr<ADD> d = makeCompound(kind, k, kind == C_MIX_GAUSS_SIMPLE ? a - 1 : a, b, w);
-      if (med) { c.site("discretize:median"); d->setMedian(true); }
-      c.site("compound-update");
+      if (med) { c.site("compound:setMedian"); d->setMedian(true); }
+      c.site(fu == 1 ? "compound:setNumberOfCategories" : fu == 2 ? "compound:setParameterValue" : "compound:restrictToConstraint");
       try {
         if (fu == 1) { d->setNumberOfCategories(k == 32 ? 3 : k + 1); ctx += " setNumberOfCategories(" + str(k == 32 ? 3 : k + 1) + ")"; }
         else if (fu == 2) {
@@ -219,7 +220,7 @@ static void compoundSpaces(vf::Runner& R, bool th) {
       }
       c.nontrivial(); c.tag(std::string("compound:") + ckClass(kind));
       if (idx % 2111 == 5) c.sample(ctx + " -> k=" + str(d->getNumberOfCategories()) + " probs=" + vf::vstr(d->getProbabilities()));
-    }, 0.5);
+    }, 0.2, 4);
   }
 }
 
@@ -238,17 +239,17 @@ struct ContSys : vf::SysBase {
 
   ContSys(Fam f_, short s_, bool th_, int variant) : f(f_), scheme(s_), th(th_) {
     switch (f) {
-      case F_GAMMA: p0 = {1, 1}; vals = {{0.5, 3}, {0.5, 3}}; if (th) { vals[0].push_back(0.1); vals[1].push_back(10); }
+      case F_GAMMA: p0 = {1, 1}; vals = {{0.5, 3}, {3}}; if (th) vals[1].push_back(0.5);
         ivs_ = {{0.5, 2, true}, {0.75, 1.5, true}, {0, 1, true}, {1, INF, true}}; break;
-      case F_GAMMAOFF: p0 = {1, 1, 0.5}; vals = {{0.5}, {3}, {3, -1}}; if (th) { vals[0].push_back(3); vals[2].push_back(0); }
+      case F_GAMMAOFF: p0 = {1, 1, 0.5}; vals = {{0.5}, {3}, {3, -1}}; if (th) vals[2].push_back(0);
         ivs_ = {{1, 2.5, true}, {1.25, 2, true}, {0.5, 1.5, true}, {1.5, INF, true}}; break;
-      case F_BETA: p0 = {1, 1}; vals = {{0.5, 3}, {0.5, 3}}; if (th) { vals[0].push_back(0.1); vals[1].push_back(10); }
+      case F_BETA: p0 = {1, 1}; vals = {{0.5, 3}, {0.5}}; if (th) vals[1].push_back(3);
         ivs_ = {{0.1, 0.9, true}, {0.25, 0.75, true}, {0, 0.5, true}, {0.5, 1, true}}; break;
-      case F_GAUSS: p0 = {0, 1}; vals = {{0.5, -1}, {0.5, 3}}; if (th) { vals[0].push_back(3); vals[1].push_back(0.1); }
+      case F_GAUSS: p0 = {0, 1}; vals = {{0.5, -1}, {3}}; if (th) vals[1].push_back(0.5);
         ivs_ = {{-1, 2, true}, {-0.5, 1, true}, {-INF, 0, true}, {0.5, INF, true}}; break;
-      case F_EXPO: p0 = {1}; vals = {{0.5, 3, 10}}; if (th) vals[0].push_back(0.1);
+      case F_EXPO: p0 = {1}; vals = {{0.5, 3}}; if (th) vals[0].push_back(10);
         ivs_ = {{0.5, 2, true}, {0.75, 1.5, true}, {0, 1, true}, {1, INF, true}}; break;
-      case F_TEXP: p0 = {1, 10}; vals = {{0.5, 3}, {3, 1.5}}; if (th) { vals[0].push_back(0.1); vals[1].push_back(100); }
+      case F_TEXP: p0 = {1, 10}; vals = {{3}, {3, 1.5}}; if (th) vals[0].push_back(0.5);
         ivs_ = {{0.5, 2.5, true}, {0.75, 2, true}, {0, 1, true}, {1, 10, true}}; break;
       default: p0 = variant ? std::vector<double>{-1, 1} : std::vector<double>{0, 1}; vals = {};
         ivs_ = variant ? std::vector<Iv>{{-0.5, 0.75, true}, {-0.25, 0.5, true}, {-1, 0, true}, {0.25, 1, true}} : std::vector<Iv>{{0.1, 0.9, true}, {0.25, 0.75, true}, {0, 0.5, true}, {0.5, 1, true}}; break;
@@ -263,7 +264,7 @@ struct ContSys : vf::SysBase {
       ops.push_back({O_MATCH, 1, 0, {vals[0][1]}});        // foreign parameter + first parameter
       ops.push_back({O_MATCH, np, 0, std::vector<double>(p0.begin(), p0.begin() + np)});   // foreign + all parameters back to the initial point
     }
-    std::vector<size_t> K = th ? std::vector<size_t>{1, 2, 3, 4, 5, 8, 16, 32} : std::vector<size_t>{1, 2, 3, 5};
+    std::vector<size_t> K = th ? std::vector<size_t>{1, 2, 3, 4, 5, 8, 16, 32} : std::vector<size_t>{1, 2, 4};
     for (size_t k : K) ops.push_back({O_SETK, (int)k, 0, {}});
     ops.push_back({O_SETMED, 0, 0, {}}); ops.push_back({O_SETMED, 1, 0, {}});
     for (int r = 0; r < 4; ++r) ops.push_back({O_RESTRICT, r, 0, {}});
@@ -324,7 +325,7 @@ struct ContSys : vf::SysBase {
           std::unique_ptr<ADD> n = makeFam(f, 3, dp, scheme); assignFam(f, *n, *A); A = std::move(n); prov = 2; break; }
         default: break;
       }
-    } catch (Exception& e) { rejected = true; if (!c.muted) c.tag("operation-rejected-unexpectedly"); }
+    } catch (Exception& e) { rejected = true; if (!c.muted) c.tag(std::string("operation-raised(state audited all the same)@") + FAMNAME[f] + (o.kind == O_RESTRICT ? ":restrictToConstraint" : ":other")); }
     if (c.muted) return;
     std::string ctx = std::string(FAMNAME[f]) + " " + schemeName(scheme) + " after [" + on + "] from {" + before + "}";
     AuditOpt ao{kreq, med, scheme, f};
@@ -351,7 +352,7 @@ struct CompSys : vf::SysBase {
     A = makeCompound(kind, 2, kind == C_MIX_GAUSS_SIMPLE ? 0.5 : 1, 1, kind == C_INV_GAMMA || kind == C_INV_SIMPLE ? 0.1 : 0.5);
     auto P = [&](const std::string& n, std::vector<double> vs) { for (double v : vs) ops.push_back({O_SETP, n, v, 0, 0}); };
     auto Rr = [&](double lo, double hi) { ops.push_back({O_RESTRICT, "", 0, lo, hi}); };
-    std::vector<double> K = th ? std::vector<double>{1, 2, 3, 5, 8, 32} : std::vector<double>{1, 2, 3};
+    std::vector<double> K = th ? std::vector<double>{1, 2, 3, 5, 8, 32} : std::vector<double>{1, 2, 5};
     switch (kind) {
       case C_CONST: P("value", {1, 0.5, 3}); Rr(0, 2); Rr(0.25, 1.5); Rr(0.75, 5); break;
       case C_SIMPLE: P("V1", {0.5, 0.25, 1}); P("V3", {2, 3}); P("theta1", {0.25, 0.5, 1}); P("theta2", {0.375, 0.9}); Rr(0, 4); Rr(0.2, 3.5); break;
@@ -361,7 +362,8 @@ struct CompSys : vf::SysBase {
       case C_MIX_BETA_UNIF: P("theta1", {0.5, 0.1, 1, 0}); P("1_Beta.alpha", {1, 0.5, 3}); P("1_Beta.beta", {1, 3}); Rr(0.1, 0.9); Rr(0, 0.5); break;
       default: P("theta1", {0.5, 0.1, 1, 0}); P("1_Gaussian.mu", {0.5, 0, 1}); P("1_Gaussian.sigma", {1, 3}); P("2_Simple.V1", {0.5, 0.25}); Rr(-1, 4); Rr(0.25, 3); break;
     }
-    if (kind >= C_INV_GAMMA) { if (kind != C_INV_SIMPLE) for (double k : K) ops.push_back({O_SETK, "", k, 0, 0}); ops.push_back({O_SETMED, "", 0, 0, 0}); ops.push_back({O_SETMED, "", 1, 0, 0}); }
+    for (double k : K) ops.push_back({O_SETK, "", k, 0, 0});
+    ops.push_back({O_SETMED, "", 0, 0, 0}); ops.push_back({O_SETMED, "", 1, 0, 0});
     ops.push_back({O_COPY, "", 0, 0, 0}); ops.push_back({O_ASSIGN, "", 0, 0, 0});
   }
   int nops() const { return (int)ops.size(); }
@@ -386,7 +388,8 @@ struct CompSys : vf::SysBase {
     const COp& o = ops[i];
     std::string on = c.muted ? std::string() : opname(i);
     std::string before = c.muted ? std::string() : canon();
-    if (!c.muted) c.site("compound-update");
+    static const char* S[] = {"compound:setParameterValue", "", "", "compound:setNumberOfCategories", "compound:setMedian", "compound:restrictToConstraint", "copy/assign", "copy/assign"};
+    if (!c.muted) c.site(S[o.kind]);
     bool rejected = false;
     try {
       switch (o.kind) {
@@ -413,12 +416,12 @@ struct CompSys : vf::SysBase {
 static void hist(vf::Runner& R, Fam f, short scheme, bool th, int variant = 0) {
   ContSys proto(f, scheme, th, variant);
   std::string name = std::string("hist:") + FAMNAME[f] + (variant ? "(-1,1)" : "") + ":" + schemeName(scheme) + ":ops" + str(proto.nops()) + (th ? "t" : "q");
-  R.explore(name, 64, proto.nops(), [=]() { return std::unique_ptr<ContSys>(new ContSys(f, scheme, th, variant)); }, 0.25);
+  R.explore(name, 64, proto.nops(), [=]() { return std::unique_ptr<ContSys>(new ContSys(f, scheme, th, variant)); }, 0.15);
 }
 static void histCompound(vf::Runner& R, int kind, bool th) {
   CompSys proto(kind, th);
   std::string name = std::string("hist:") + CKNAME[kind] + ":ops" + str(proto.nops()) + (th ? "t" : "q");
-  R.explore(name, th ? 5 : 4, proto.nops(), [=]() { return std::unique_ptr<CompSys>(new CompSys(kind, th)); }, 0.25);
+  R.explore(name, th ? 5 : 4, proto.nops(), [=]() { return std::unique_ptr<CompSys>(new CompSys(kind, th)); }, 0.15);
 }
 
 int main(int argc, char** argv) {
@@ -439,7 +442,7 @@ int main(int argc, char** argv) {
   R.expectSeen("parent-grid-checked");
   R.note("domain taken as the object reports it; class masses and means are judged against the object's own pProb/Expectation relative to the mass of the reported domain");
   R.note("a class value may leave its class interval by (k+1)*precision(): the library's boundary adjustment and duplicate separation move values by that much by design");
-  R.note("look-up: a value on a bound may be reported in either adjacent class; getCategoryIndex is read as an index accepted by getCategory(i)");
+  R.note("look-up: a value on a bound may be reported in either adjacent class; getCategoryIndex may count from 0 or from 1, but must do so consistently over all test points of a state");
   R.note("domains whose mass is zero in double precision are judged on the structural clauses only (mass and mean clauses are undefined there)");
   R.note("compounds (constant, simple, invariant-mixed, mixture) are judged on class count = class list, p>=0, sum=1, cumulative queries; their bounds are not judged; setNumberOfCategories is not applied to constant/simple (a user-specified class list has no other class count)");
   return R.finish();
